@@ -388,7 +388,7 @@ func (p *parserDoer) onSpan(traceId []byte, spanId []byte, timestampNs int64, du
 		p.attrs.MDurationNs = append(p.attrs.MDurationNs, durationNs)
 		p.attrs.MKey = append(p.attrs.MKey, k)
 		p.attrs.MVal = append(p.attrs.MVal, val[i])
-		p.attrs.MDate = append(p.attrs.MDate, time.Unix(timestampNs/1000000000, 0))
+		p.attrs.MDate = append(p.attrs.MDate, time.Unix(timestampNs/1000000000, 0).UTC())
 		p.attrs.Size += 40 + len(k) + len(val[i])
 	}
 
